@@ -83,6 +83,9 @@ var hostileTypeValues = [][]byte{
 	{35, 0xff, 0xff, 0xff, 0xff, 0xff, 0xff, 0xff, 0xff, 0xff, 0x01},
 	{30, 1, 0xff, 0xff, 0xff, 0xff, 0xff, 0xff, 0xff, 0xff, 0xff, 0x01, 'a', 9},
 	{31, 31, 31, 31}, {99}, {29}, {28}, {25}, {9, 9}, {33, 9}, {32}, {36},
+	{30, 0x80, 0x80, 0x80, 0x08}, {30, 0x80, 0x80, 0x80, 0x40}, // record type values announcing 2^24 / 2^27 fields
+	{34, 0x80, 0x80, 0x80, 0x08}, {35, 0x80, 0x80, 0x80, 0x08}, // union / enum announcing 2^24 members
+	{30, 0xa1, 0x8d, 0x06}, {34, 0xa1, 0x8d, 0x06}, {35, 0xa1, 0x8d, 0x06}, // 100001: one more than MaxRecordFields etc.
 	{30, 2, 1, 'a', 9, 1, 'a', 9}, // duplicate field
 	{37, 5, 'i', 'n', 't', '6', '4', 9},
 }
